@@ -42,6 +42,7 @@ type FnCtx struct {
 	contract         *Contract
 	smt              *Script
 	floatsIEEE       bool
+	excludedAxioms   map[string]bool // lemma proofs: axioms that must not be used (the one being proved)
 	heapSorts        map[string]string
 	initialHeaps     map[string]string
 	fieldIDs         map[string]int
@@ -96,6 +97,8 @@ type Frame struct {
 	iterCaller *Frame
 	baseScope  int
 	loopEntryState map[*Loop]*State
+	selectSplits   map[*ssa.BasicBlock]selectSplit // select statements executed so far, by block (case splits of step obligations)
+	loopHeadState  map[*Loop]*State // the state assumed at the head of an arbitrary iteration (prev() in step clauses)
 	loopScope  map[*Loop]int
 }
 
@@ -233,7 +236,7 @@ func (e *Engine) srcText(pos token.Pos, want string) string {
 func (c *FnCtx) newFrame(fn *ssa.Function, parent *Frame, fv *FnVal) *Frame {
 	fr := &Frame{c: c, fn: fn, vals: map[ssa.Value]Val{}, parent: parent, fnval: fv,
 		reach: map[*ssa.BasicBlock]string{}, edgeIn: map[*ssa.BasicBlock][]edgeIn{}, iterGhost: map[*ssa.Range]string{},
-		baseScope: c.smt.curScope, loopScope: map[*Loop]int{}, loopEntryState: map[*Loop]*State{}}
+		baseScope: c.smt.curScope, loopScope: map[*Loop]int{}, loopEntryState: map[*Loop]*State{}, loopHeadState: map[*Loop]*State{}, selectSplits: map[*ssa.BasicBlock]selectSplit{}}
 	if parent != nil {
 		fr.depth = parent.depth + 1
 		l := shortFn(fn)
@@ -787,6 +790,7 @@ func (fr *Frame) enterLoop(lp *Loop, ins []edgeIn) (*State, string) {
 			c.smt.assume(implies(r0, t), fmt.Sprintf("loop %d invariant: %s", lp.ordinal, cl.Text))
 		}
 	}
+	fr.loopHeadState[lp] = s1.clone()
 	return s1, r0
 }
 
@@ -959,6 +963,15 @@ func (fr *Frame) iterCallerEntry() *State {
 	return f.entry
 }
 
+// selectSplit: the case index of an executed select statement. A step obligation of a loop whose body contains the
+// select is proved once per case (under idx == k): after the select the engine merges the cases' states into
+// if-then-else terms, which quantifier instantiation does not see through; under a fixed case they collapse.
+type selectSplit struct {
+	idx      string
+	n        int
+	blocking bool
+}
+
 func (fr *Frame) checkInvariants(lp *Loop, st *State, reach, kind string, from *ssa.BasicBlock) {
 	fr.checkFrameInvs(lp, st, reach, kind)
 	for _, it := range fr.iterInvariants(lp, st) {
@@ -990,6 +1003,47 @@ func (fr *Frame) checkInvariants(lp *Loop, st *State, reach, kind string, from *
 				pos = lp.header.Instrs[0].Pos()
 			}
 			fr.oblige(kind, fmt.Sprintf("loop %d: %s", lp.ordinal, cj.String()), reach, t, pos)
+		}
+	}
+	if kind != "inv-preserve" {
+		return
+	}
+	// step clauses: a relation between the state at the head of this iteration (prev(e)) and the state at its end
+	for _, cl := range fr.contract.loopClauses("step", lp.ordinal) {
+		for _, cj := range conjuncts(cl.Expr) {
+			env := fr.env(st)
+			env.loopEntry = fr.loopEntryState[lp]
+			env.loopHead = fr.loopHeadState[lp]
+			env.rangeAllocs = fr.rangeAllocsFor(lp)
+			t, err := env.evalBool(cj)
+			if err != nil {
+				fr.bindFailure(cl, err)
+				continue
+			}
+			pos := token.NoPos
+			if len(lp.header.Instrs) > 0 {
+				pos = lp.header.Instrs[0].Pos()
+			}
+			var split *selectSplit
+			for blk, sp := range fr.selectSplits {
+				if lp.body[blk] {
+					sp := sp
+					if split == nil || sp.idx < split.idx {
+						split = &sp
+					}
+				}
+			}
+			if split == nil {
+				fr.oblige("step", fmt.Sprintf("loop %d step: %s", lp.ordinal, cj.String()), reach, t, pos)
+				continue
+			}
+			lo := 0
+			if !split.blocking {
+				lo = -1
+			}
+			for k := lo; k < split.n; k++ {
+				fr.oblige("step", fmt.Sprintf("loop %d step [select case %d]: %s", lp.ordinal, k, cj.String()), and(reach, eq(split.idx, intLit(int64(k)))), t, pos)
+			}
 		}
 	}
 }
